@@ -12,9 +12,11 @@ const (
 	verifPopCancelBroadcastDone
 	verifSeqnoBeforeCommit
 	verifLoopRequest // the event loop has received an API request and not yet handled it
+	verifPopTake     // a stream writer is about to take the next RPC out of its queue
 )
 
 var (
+	verifYieldQueueFn     func(q *rpcQueue, point int)
 	verifYieldFn          func(point int)
 	verifObserveSendRPCFn func(p peer.ID, out *RPC)
 )
@@ -28,5 +30,15 @@ func verifYield(point int) {
 func verifObserveSendRPC(p peer.ID, out *RPC) {
 	if f := verifObserveSendRPCFn; f != nil {
 		f(p, out)
+	}
+}
+
+// verifYieldQueue is called with q.queueMu held; the lock is released around the callback so
+// that the simulator can park the caller without blocking other users of the queue.
+func verifYieldQueue(q *rpcQueue, point int) {
+	if f := verifYieldQueueFn; f != nil {
+		q.queueMu.Unlock()
+		f(q, point)
+		q.queueMu.Lock()
 	}
 }
